@@ -215,13 +215,11 @@ Section Ecrts.
     rewrite (search_least_sol sbf st Hok Hinv dbg limit bw_rhs Hbw).
     destruct (least_sol sbf limit 0 bw_rhs) as [max_bw|] eqn:E; cbn [rbind]; [|reflexivity].
     cbv zeta.
-    destruct (existsb (fun d => d =? 0) (steps (max_bw + 1))) eqn:EX.
-    - exfalso. apply existsb_exists in EX. destruct EX as (d & Hd & Hd0).
-      apply N.eqb_eq in Hd0. apply Hs in Hd. lia.
-    - f_equal. apply map_ext_in. intros A HA. apply in_map_iff in HA.
-      destruct HA as (d & <- & Hd). apply Hs in Hd. destruct Hd as (H1 & H2 & H3).
-      unfold off_res. apply (search_with_offset_least_sol sbf st Hinv); [apply Hrhs|].
-      apply (Hpre max_bw); [reflexivity|lia|]. replace (d - 1 + 1) with d by lia. exact H3.
+    rewrite filter_pos_id by (intros d Hd; apply Hs in Hd; lia).
+    f_equal. apply map_ext_in. intros A HA. apply in_map_iff in HA.
+    destruct HA as (d & <- & Hd). apply Hs in Hd. destruct Hd as (H1 & H2 & H3).
+    unfold off_res. apply (search_with_offset_least_sol sbf st Hinv); [apply Hrhs|].
+    apply (Hpre max_bw); [reflexivity|lia|]. replace (d - 1 + 1) with d by lia. exact H3.
   Qed.
 
   Lemma in_step_offsets : forall demand steps h A, steps_exact demand steps ->
